@@ -74,8 +74,8 @@ Fixpoint has_dup (l : list Z) : bool :=
   match l with [] => false | x :: r => existsb (Z.eqb x) r || has_dup r end.
 
 (* ---- result reasons (enums.ResultReason) ---- *)
-Definition R_NOT_FOUND := 1. Definition R_PERM := 12. Definition R_ILLEGAL := 5. Definition R_INVALID_FIELD := 7.
-Definition R_NOT_SUPPORTED := 8. Definition R_GENERAL := 256. Definition R_ATTR := 23.
+Definition R_NOT_FOUND := 1. Definition R_PERM := 12. Definition R_ILLEGAL := 11. Definition R_INVALID_FIELD := 7.
+Definition R_NOT_SUPPORTED := 5. Definition R_GENERAL := 256. Definition R_ATTR := 29 (* stands for the attribute-specific refusals *).
 
 (* ---- request items ---- *)
 Inductive attr := AName | AGroup | ASens | AAlg | AUnknown.
